@@ -30,6 +30,33 @@ func (ps *PrintState) GetSeen(x interface{}) bool {
 	return ok
 }
 
+// MaxPrintDepth is the nesting depth to which the printer follows arrays and
+// hashes; what lies deeper is shown as "...".
+const MaxPrintDepth = 10000
+
+// enter notes that the array or hash x is being printed. It returns the
+// PrintState to use from here on (never nil), and false if x must not be
+// descended into: x is already being printed further out (a value can
+// contain itself, see aset and hset) or the nesting is deeper than
+// MaxPrintDepth. After enter returned true the caller calls leave(x).
+func (ps *PrintState) enter(x interface{}) (*PrintState, bool) {
+	if ps == nil {
+		ps = NewPrintState()
+	}
+	if ps.Seen == nil {
+		ps.Seen = NewSeen()
+	}
+	if _, cyclic := ps.Seen[x]; cyclic || len(ps.Seen) >= MaxPrintDepth {
+		return ps, false
+	}
+	ps.Seen[x] = struct{}{}
+	return ps, true
+}
+
+func (ps *PrintState) leave(x interface{}) {
+	delete(ps.Seen, x)
+}
+
 func (ps *PrintState) GetIndent() int {
 	if ps == nil {
 		return 0
